@@ -74,6 +74,14 @@ def verify_function(spec, reg):
                     raise SpecError('fragment_after %r matches %d statements of %s (or nothing follows)'
                                     % (spec['fragment_after'], len(at), spec['qualname']))
                 hit = body[at[0] + 1:]
+                if spec.get('fragment_before'):
+                    # ... up to (not including) the statement containing this marker
+                    end = [k for k, n in enumerate(hit) if spec['fragment_before'] in
+                           (_ast.get_source_segment(fsrc.src, n) or '')]
+                    if not end or end[0] == 0:
+                        raise SpecError('fragment_before %r: no statement between the markers in %s'
+                                        % (spec['fragment_before'], spec['qualname']))
+                    hit = hit[:end[0]]
                 tail = hit[1:]
                 hit = hit[:1]
             elif spec.get('fragment_marker'):
@@ -302,7 +310,7 @@ def _verify_variant(spec, reg, fsrc, modenv, ptypes, label, res):
         text = r[1] if isinstance(r, tuple) else r
         st.pc.append(ex.spec_bool(text, st))
     # cover: the precondition is satisfiable
-    sat = ex.check(st)
+    sat = ex.check_cover(st)
     res.covers.append(('%s/pre-satisfiable%s' % (spec['short'],
                        '@' + label if label else ''), str(sat)))
     if sat == z3.unsat:
@@ -438,7 +446,7 @@ def _induction(ex, lem, st, res):
     # base
     b = st.fork()
     for h in at(z3.IntVal(0), 'hyps'): b.pc.append(h)
-    res.covers.append(('%s/base-hyps-satisfiable' % lem['name'], str(ex.check(b))))
+    res.covers.append(('%s/base-hyps-satisfiable' % lem['name'], str(ex.check_cover(b))))
     for g, t in zip(at(z3.IntVal(0), 'goals'), lem['goals']):
         ex.oblige(b, 'base:%s' % (t[0] if isinstance(t, tuple) else 'goal'), g,
                   'lemma', note='n = 0')
@@ -487,7 +495,7 @@ def verify_lemma(lem, reg):
             return res
         for h in lem.get('hyps', []):
             st.pc.append(ex.spec_bool(h, st))
-        sat = ex.check(st)
+        sat = ex.check_cover(st)
         res.covers.append(('%s/hyps-satisfiable' % lem['name'], str(sat)))
         if sat == z3.unsat:
             raise SpecError('hypotheses of lemma %s are unsatisfiable'
